@@ -77,12 +77,13 @@ def gen_desc(rng, *, profile: str | None = None) -> dict:
     pool: list[int] = plain + variables + ([0] if rng.random() < 0.5 else [])
     untrans_budget = 1 if (not clean and rng.random() < 0.1) else 0
 
-    def pick_fn(allow_ia: bool = True) -> tuple[int, list[int]]:
+    def pick_fn(allow_ia: bool = True, coef: bool = False) -> tuple[int, list[int]]:
         nonlocal untrans_budget
         if untrans_budget and rng.random() < 0.4:
             untrans_budget = 0
             ar = rng.choice([1, 2])
-            fid = rng.choice(FN.UNTRANSLATABLE_BY_ARITY[ar])
+            # incl. the functions refused BY ARITY (default values, keyword-only parameters, *args)
+            fid = rng.choice((FN.UNTRANSLATABLE_COEF_BY_ARITY if coef else FN.UNTRANSLATABLE_BY_ARITY)[ar])
             return fid, [rng.choice(pool) for _ in range(ar)]
         ar = rng.choice([0, 1, 1, 2, 2, 2, 3])
         fid = rng.choice(FN.BY_ARITY[ar])
@@ -101,7 +102,7 @@ def gen_desc(rng, *, profile: str | None = None) -> dict:
     def pick_coef() -> tuple:
         if rng.random() < 0.7:
             return ("stat", rng.choice(_CVALS))
-        fid, args = pick_fn(allow_ia=False)
+        fid, args = pick_fn(allow_ia=False, coef=True)
         if FN.translates(fid) and args and rng.random() < 0.35:
             # every argument a plain parameter: the model's cache holds such a coefficient as a
             # NUMBER (evaluated at the stored values); the generator must emit the EXPRESSION, or a
@@ -294,6 +295,35 @@ def sweep_cases(rng=None) -> tuple[list[tuple[dict, list[tuple]]], dict]:
                  "cases": len(out)}
 
 
+def refusal_sweep_cases() -> tuple[list[tuple[dict, list[tuple]]], dict]:
+    """For EVERY function of the table that fn_to_sympy must refuse (subscript, and/or, lambda; the
+    ten refused by arity: default values relied on, keyword-only parameters, *args, empty argument
+    lists): a model in which it is the rate, one in which it is a derived quantity read by a rate, one
+    in which it is a computed coefficient -- each WITH a model parameter called n0011 (the name of
+    the helpers' defaulted parameter, value 4 where the default is 2 / 0.5) and without.  Python
+    evaluates every one of them; generation must raise in every language."""
+    F = Fraction
+    out: list[tuple[dict, list[tuple]]] = []
+    fids = sorted(set(range(len(FN.FNS))) - FN.TRANSLATABLE)
+    pts = [(F(0), [F(3), F(5)], []), (F(1), [F(2), F(-1)], [])]
+    for fid in fids:
+        k = FN.ARITY[fid]
+        args = [12, 13][:k]
+        for pname in (11, 40):
+            base = {"par": [(pname, F(4), None)], "var": [(12, F(1)), (13, F(2))], "free": []}
+            st = [(12, ("stat", F(-1))), (13, ("stat", F(1)))]
+            if fid not in FN.COEF_ONLY:
+                out.append(({**base, "der": [], "rxn": [(20, fid, args, st)]}, pts))
+                out.append(({**base, "der": [(19, fid, args)], "rxn": [(20, 4, [19, 12], st)]}, pts))
+            out.append(({**base, "der": [], "rxn": [(20, 0, [12], [(12, ("stat", F(-1))), (13, ("dyn", fid, args))])]}, pts))
+    return out, {"functions": len(fids), "refused_by_arity": len(FN.BY_ARITY_REFUSED), "cases": len(out)}
+
+
+def used_fids(desc: dict) -> list[int]:
+    fids = [f for _n, f, _a in desc["der"]] + [f for _n, f, _a, _s in desc["rxn"]]
+    return fids + [c[1] for _n, _f, _a, st in desc["rxn"] for _v, c in st if c[0] == "dyn"]
+
+
 def uses_untranslatable(desc: dict) -> bool:
     fids = [f for _n, f, _a in desc["der"]] + [f for _n, f, _a, _s in desc["rxn"]]
     fids += [c[1] for _n, _f, _a, st in desc["rxn"] for _v, c in st if c[0] == "dyn"]
@@ -314,6 +344,12 @@ def shape_flags(desc: dict) -> dict[str, Any]:
         "has_ia": any(ia is not None for _n, _v, ia in desc["par"]),
         "free_ok": all(f in plain for f in desc["free"]) and len(set(desc["free"])) == len(desc["free"]),
         "untranslatable": uses_untranslatable(desc),
+        # the ONLY functions fn_to_sympy has to refuse are calls with an empty argument list of a
+        # function whose parameters all have defaults (recorded finding while the tree skips the binding then)
+        "empty_call_only": uses_untranslatable(desc) and all(FN.translates(f) or f in FN.EMPTY_CALL for f in used_fids(desc)),
+        "surplus_only": uses_untranslatable(desc) and all(FN.translates(f) or f in FN.SURPLUS_ONLY for f in used_fids(desc)),
+        "empty_call": any(f in FN.EMPTY_CALL for f in used_fids(desc)),
+        "keyerror_refusal": any(f in FN.KEYERROR_REFUSED for f in used_fids(desc)),
         "declared_in_order": declared_in_order(desc),
     }
 
